@@ -121,10 +121,10 @@ func init() {
 		},
 		Harnesses: []harnessSpec{
 			{Name: "VxC28", Pkg: "github.com/goplus/xgo/tpl", Files: tplFiles,
-				Quick: map[string]int{"D": 1, "ATOMS": 7, "LEAFBIN": 1, "NB": 7, "NTOK": 2}, Thorough: map[string]int{"D": 1, "ATOMS": 7, "LEAFBIN": 0, "NB": 7, "NTOK": 3},
+				Quick: map[string]int{"FAM": 0, "D": 1, "ATOMS": 7, "LEAFBIN": 1, "NB": 7, "NTOK": 2}, Thorough: map[string]int{"FAM": 0, "D": 1, "ATOMS": 7, "LEAFBIN": 0, "NB": 7, "NTOK": 3},
 				BudgetViolation: true, MaxSteps: 300_000, ReplayTimeout: 8 * time.Second},
 			{Name: "VxC28", Pkg: "github.com/goplus/xgo/tpl", Files: tplFiles,
-				Quick: map[string]int{"D": 2, "ATOMS": 7, "LEAFBIN": 1, "NB": 1, "NTOK": 1}, Thorough: map[string]int{"D": 2, "ATOMS": 7, "LEAFBIN": 1, "NB": 7, "NTOK": 2},
+				Quick: map[string]int{"FAM": 0, "D": 2, "ATOMS": 7, "LEAFBIN": 1, "NB": 1, "NTOK": 1}, Thorough: map[string]int{"FAM": 0, "D": 2, "ATOMS": 7, "LEAFBIN": 1, "NB": 7, "NTOK": 2},
 				BudgetViolation: true, MaxSteps: 300_000, ReplayTimeout: 8 * time.Second},
 		},
 	})
@@ -132,15 +132,21 @@ func init() {
 		ID:   "C29",
 		Rule: "same grammar generator and symbolic token inputs as C28; the real matcher's outcome (success/failure, tokens consumed, result tree with tokens compared by identity) is compared with a reference matcher written in the harness from tpl/README.md (ordered choice, greedy repetition without backtracking, n-element sequence lists, nil for absent options, [r,[[sep,r]...]] for R1 % R2, pairs and touching tokens for R1 ++ R2)",
 		Assumptions: []string{
-			"bound: as C28 (D, ATOMS, NB, NTOK in evidence); grammars for which the README gives no meaning (repetition of an operand that can match empty, unbounded recursion) are skipped here and covered by C28",
+			"bound: as C28 (D, ATOMS, NB, NTOK in evidence), plus the family FAM=1: repetition (* + ?) of a two-token operand (sequence or ++), alone, followed or preceded by an atom, on up to NTOK tokens, and the family FAM=2: choice between two two-token sequences (optionally a third, one-token alternative) over {IDENT, INT, "+", keyword literal}; grammars for which the README gives no meaning (repetition of an operand that can match empty, unbounded recursion) are skipped here and covered by C28",
 			"the reference matcher (harness/c28/tplgen.go) is the oracle; before the choice repair it agreed with the implementation everywhere except the recorded class",
 		},
 		Harnesses: []harnessSpec{
 			{Name: "VxC29", Pkg: "github.com/goplus/xgo/tpl", Files: tplFiles,
-				Quick: map[string]int{"D": 1, "ATOMS": 6, "LEAFBIN": 1, "NB": 2, "NTOK": 2}, Thorough: map[string]int{"D": 1, "ATOMS": 7, "LEAFBIN": 0, "NB": 4, "NTOK": 4},
+				Quick: map[string]int{"FAM": 0, "D": 1, "ATOMS": 6, "LEAFBIN": 1, "NB": 2, "NTOK": 2}, Thorough: map[string]int{"FAM": 0, "D": 1, "ATOMS": 7, "LEAFBIN": 0, "NB": 4, "NTOK": 4},
 				MaxSteps: 300_000},
 			{Name: "VxC29", Pkg: "github.com/goplus/xgo/tpl", Files: tplFiles,
-				Quick: map[string]int{"D": 2, "ATOMS": 4, "LEAFBIN": 1, "NB": 1, "NTOK": 1}, Thorough: map[string]int{"D": 2, "ATOMS": 6, "LEAFBIN": 1, "NB": 2, "NTOK": 2},
+				Quick: map[string]int{"FAM": 2, "D": 3, "ATOMS": 5, "LEAFBIN": 1, "NB": 1, "NTOK": 2}, Thorough: map[string]int{"FAM": 2, "D": 3, "ATOMS": 5, "LEAFBIN": 1, "NB": 1, "NTOK": 3},
+				MaxSteps: 300_000},
+			{Name: "VxC29", Pkg: "github.com/goplus/xgo/tpl", Files: tplFiles,
+				Quick: map[string]int{"FAM": 1, "D": 3, "ATOMS": 5, "LEAFBIN": 1, "NB": 1, "NTOK": 3}, Thorough: map[string]int{"FAM": 1, "D": 3, "ATOMS": 5, "LEAFBIN": 1, "NB": 1, "NTOK": 4},
+				MaxSteps: 300_000},
+			{Name: "VxC29", Pkg: "github.com/goplus/xgo/tpl", Files: tplFiles,
+				Quick: map[string]int{"FAM": 0, "D": 2, "ATOMS": 4, "LEAFBIN": 1, "NB": 1, "NTOK": 1}, Thorough: map[string]int{"FAM": 0, "D": 2, "ATOMS": 6, "LEAFBIN": 1, "NB": 2, "NTOK": 2},
 				MaxSteps: 300_000},
 		},
 	})
@@ -492,15 +498,15 @@ func init() {
 	register(&checkSpec{
 		ID:    "C10",
 		Level: "translation_validation",
-		Rule:  "programs = the 32 overload sets of harness/tv/c10/ovl.xgo: one-parameter sets {int, string, bool} as function literals and as named functions in all 6 orders each, two-parameter sets {(int,int), (int,string), (string,int), (string,string)} in 8 of the 24 orders, method sets {int, string, *foo} in all 6 orders, operator sets {(num,int), (num,num), (int,num)} in all 6 orders; compiled by the compiler of the current tree; every candidate returns its own tag combined with its arguments; inputs = the arguments as SMT variables; each call in the emitted Go must return the tag of the candidate whose parameter types accept the arguments",
+		Rule:  "programs = the 36 overload sets of harness/tv/c10/ovl.xgo: four sets whose type, method or function names contain underscores (the mangled overload names use underscores as separators); one-parameter sets {int, string, bool} as function literals and as named functions in all 6 orders each, two-parameter sets {(int,int), (int,string), (string,int), (string,string)} in 8 of the 24 orders, method sets {int, string, *foo} in all 6 orders, operator sets {(num,int), (num,num), (int,num)} in all 6 orders; compiled by the compiler of the current tree; every candidate returns its own tag combined with its arguments; inputs = the arguments as SMT variables; each call in the emitted Go must return the tag of the candidate whose parameter types accept the arguments",
 		Assumptions: []string{
 			"translation validation of the listed overload sets, not of every overload declaration; float64 candidates (untyped constant defaulting) are not covered",
 			"the inputs dimension is small here: the content of the check is the family of candidate orders and declaration styles",
 		},
 		Prepare: func(tier string) error { _, err := prepareTV("C10"); return err },
-		Extra:   func(tier string, ev map[string]any) []Violation { ev["programs"] = 32; return nil },
+		Extra:   func(tier string, ev map[string]any) []Violation { ev["programs"] = 36; return nil },
 		Harnesses: []harnessSpec{
-			{Name: "VxC10", ExtDir: tvDir("C10"), Quick: map[string]int{}, Variants: []map[string]int{{"FAM": 0}, {"FAM": 1}, {"FAM": 2}, {"FAM": 3}}, MaxSteps: 500_000},
+			{Name: "VxC10", ExtDir: tvDir("C10"), Quick: map[string]int{}, Variants: []map[string]int{{"FAM": 0}, {"FAM": 1}, {"FAM": 2}, {"FAM": 3}, {"FAM": 4}}, MaxSteps: 500_000},
 		},
 	})
 
@@ -586,7 +592,7 @@ func init() {
 	c37Files := []string{"c37/c37.go", "gen:goastkinds", "gen:corpus:token/*.go;ast/*.go;ast/fromgo/*.go;ast/togo/*.go;scanner/*.go;x/xgoprojs/*.go;x/fakenet/*.go;x/watcher/*.go;format/*.go;x/typesutil/*.go;tpl/types/*.go;tpl/ast/*.go;x/jsonrpc2/*.go;cl/internal/typesutil/*.go:60:14000"}
 	register(&checkSpec{
 		ID:   "C37",
-		Rule: "Go source = (a) one of 32 concrete declaration contexts (functions, methods, receivers, variadics, named results, type definitions and aliases, struct fields with tags, interface methods, union constraints, type parameters, instantiations, values with every operator position, literals, slice expressions, calls with ellipsis, channel directions, array lengths, composite literals, type assertions, closures, import specs) around a window of <= N symbolic bytes, (b) up to 60 .go files of the repository as a concrete corpus; parsed by GOROOT's go/parser (executed from go/ssa), converted by the real fromgo.ASTFile and back by the real togo.ASTFile; per declaration the header signature (node kinds, tokens, names, literal values, channel directions, structure; generated at check time from go/ast's struct definitions) must be unchanged",
+		Rule: "Go source = (a) one of 40 concrete declaration contexts (embedded fields with and without tags, embedded interfaces, fields of function type, unnamed parameters, functions, methods, receivers, variadics, named results, type definitions and aliases, struct fields with tags, interface methods, union constraints, type parameters, instantiations, values with every operator position, literals, slice expressions, calls with ellipsis, channel directions, array lengths, composite literals, type assertions, closures, import specs) around a window of <= N symbolic bytes, (b) up to 60 .go files of the repository as a concrete corpus; parsed by GOROOT's go/parser (executed from go/ssa), converted by the real fromgo.ASTFile and back by the real togo.ASTFile; per declaration the header signature (node kinds, tokens, names, literal values, channel directions, structure; generated at check time from go/ast's struct definitions) must be unchanged",
 		Assumptions: []string{
 			"bound: windows of <= N ASCII bytes in the listed contexts; corpus files of at most 14000 bytes",
 			"function bodies and closure bodies are dropped by the conversion by design and are not compared; positions and comments are not compared; 'printed headers equal' is decided as structural equality of exactly the fields go/printer prints (go/printer itself is not executed)",
@@ -594,7 +600,7 @@ func init() {
 		Harnesses: []harnessSpec{
 			{Name: "VxC37Corpus", Pkg: "github.com/goplus/xgo/ast/togo", Files: c37Files, Quick: map[string]int{"N": 0, "P": 0}, MaxSteps: 80_000_000},
 			{Name: "VxC37", Pkg: "github.com/goplus/xgo/ast/togo", Files: c37Files,
-				Quick: map[string]int{"N": 2}, Thorough: map[string]int{"N": 3}, Variants: c15Variants(32), MaxSteps: 8_000_000},
+				Quick: map[string]int{"N": 2}, Thorough: map[string]int{"N": 3}, Variants: c15Variants(40), MaxSteps: 8_000_000},
 		},
 	})
 
